@@ -58,6 +58,16 @@ def compare(rep, exe, plans, label="expand"):
                     rep.count("theorem-instances-checked:C17_expandOK_of_expand_inherent")
                     if mv[5][1] != "1":
                         rep.broken.append("instance of C17_expandOK_of_expand_inherent false in the executable model: " + p.invocation_text()[:400])
+            if len(mv) > 6 and mv[6]:
+                # conclusions of C01_itemsOK_of_expand (needs expandWF) and C12_exact_checkers_hold (no hypothesis) on the model's expansion
+                wf_, items_ok, where_ok, rows_ok = (x == "1" for x in mv[6][:4])
+                rep.count("theorem-instances-checked:C12_exact_checkers_hold")
+                if not (where_ok and rows_ok):
+                    rep.broken.append("instance of C12_exact_checkers_hold false in the executable model: " + p.invocation_text()[:400])
+                if wf_:
+                    rep.count("theorem-instances-checked:C01_itemsOK_of_expand")
+                    if not items_ok:
+                        rep.broken.append("instance of C01_itemsOK_of_expand false in the executable model: " + p.invocation_text()[:400])
             # helper trait (trait mode)
             if mv[0][0] == "unmodelled":
                 rep.count(label + ":helper-trait-unmodelled")
